@@ -16,7 +16,7 @@ CONSTANTS
   BatchSizes = {1, 2}
   AllowExplicit = FALSE
   MaxDamage = 1
-  DamageKinds = {"crc", "type", "zero"}
+  DamageKinds = {"crc", "type", "zero", "len_badtype"}
   CrcQuarantinesBlock = FALSE
   MinOpsBeforeCrash = 0
   WithPersistCalls = FALSE
